@@ -207,14 +207,21 @@ class Adapter(object):
       return op["d"]
     if k == "SleepOp":
       return recoco.Sleep(op["d"])
+    # Select takes its fd collections as lists or any other iterable (tuple, set), and its timeout by position or
+    # by keyword: the form is varied with the task - what is waited for, and for how long, must not depend on it
+    form = self._cur_tid % 3
+    def fds(*x):
+      return list(x) if form == 0 else tuple(x) if form == 1 else set(x)
     if k == "SelT":
-      return recoco.Select([], [], [], op["d"])
+      return recoco.Select(fds(), fds(), fds(), op["d"])
     if k == "SelFD":
       to = None if op["d"] == NOTO else op["d"]
-      return recoco.Select([self._sock(op["fd"])[0]], None, None, to)
+      if form == 2:
+        return recoco.Select(fds(self._sock(op["fd"])[0]), None, None, timeout=to)
+      return recoco.Select(fds(self._sock(op["fd"])[0]), None, None, to)
     if k == "SelW":
       to = None if op["d"] == NOTO else op["d"]
-      return recoco.Select(None, [self._sock("a")[0]], None, to)
+      return recoco.Select(None, fds(self._sock("a")[0]), None, to)
     if k == "Recv":
       to = None if op["d"] == NOTO else op["d"]
       return recoco.Recv(self._sock(op["fd"])[0], timeout=to)
